@@ -86,7 +86,11 @@ SizeExpect(x) == IF x.pad \in {"comment", "spaces", "newlines", "decls", "stmts"
 Flags == {"", "pub", "extern", "pub extern"}
 FnKinds == {"leaf", "selfrec", "mutual", "headdef", "defhead", "headonly", "unused", "viaimport"}
 Places == {"m1", "m2", "main2", "three"}
-SymCells == [fam : {"sym"}, flags : Flags, kind : FnKinds, place : Places]
+\* twin: a CONSTANT of the same name as the function, declared right before it (constants and functions live in separate
+\* namespaces; the symbol of the function must not depend on it), with every combination of flags
+Twins == {"none", "const", "pub const", "extern const", "pub extern const"}
+SymCells == [fam : {"sym"}, flags : Flags, kind : FnKinds, place : Places, twin : {"none"}]
+            \cup [fam : {"sym"}, flags : Flags, kind : {"leaf", "selfrec", "viaimport", "headonly"}, place : {"m1", "m2", "three"}, twin : Twins \ {"none"}]
 \* a head that is never defined is only meaningful for an extern function (defined by a linked library)
 \* ... and a head next to the definition of the same function is a duplicate declaration (E421): no forward declarations
 SymExpect(x) == IF x.kind = "headonly" /\ x.flags \notin {"extern", "pub extern"} THEN [t |-> "free"]
